@@ -379,7 +379,10 @@ impl Gen {
                         let head = 7 + 11 + d.names[q].len() + 12;
                         let rem = if rem < 7 { BLOCK + rem } else { rem };
                         if rem > head && (lens[0] as usize) > rem - head + 40 {
-                            let phase = ((rem - head) % 64) as u32;
+                            // any of the block boundaries the entry crosses (later ones are 32761 payload bytes apart)
+                            let crossings = 1 + ((lens[0] as usize) - (rem - head)) / (BLOCK - 7);
+                            let j = rng.usize_below(crossings.min(8));
+                            let phase = ((rem - head + j * (BLOCK - 7)) % 64) as u32;
                             let uid = self.uid() | crate::model::ENTRY_LIKE | (phase << 24);
                             return Op::Append { q, pos, lens, uid };
                         }
